@@ -13,6 +13,10 @@
 //                 every manager call is compared together with the manager that was called.
 //   u32 suite     (part 6) the real momo::internal::MemPoolUInt32 against the model engine "poolu32": indices returned, every
 //                 manager call (buffers and the storage of the buffer array), real pointers, head, count, free chain.
+//   edge suites   (part 7) `edge` (engine "poolworld"): a pool type with RUN-TIME parameters and CheckMode::exception - DeallocateIf on
+//                 pools without a live block, MergeFrom(self), MergeFrom refused by each of its four checks, the constructor with illegal /
+//                 boundary parameter sets (pvCheckParams), MemPool() / MemPool(MemManager), const GetMemManager; `u32edge` (engine
+//                 "poolu32"): the constructor of MemPoolUInt32 around SIZE_MAX / blockCount.
 // Property-level oracle (FAIL lines): alignment, blocks inside memory obtained from the manager, pairwise
 // disjoint, pattern bytes of live blocks intact, canary bytes outside owned memory intact, allocated count
 // = number of live blocks, DeallocateIf asks about exactly the live blocks, ledger of the manager exact and
@@ -1725,7 +1729,7 @@ struct Edge {
 		destroy(o);
 		endScenario();
 		c.stats.nontrivial("edge " + scen);
-		c.stats.sample("edge " + scen + fmt(": DeallocateIf without a live block on a fresh pool, after %zu blocks were freed (%s), after DeallocateIf freed all, after DeallocateAll: filter never called", count, cached ? "cached free blocks flushed" : "one free buffer kept"), 3);
+		c.stats.sample("edge " + scen + fmt(": DeallocateIf without a live block on a fresh pool, after %zu blocks were freed (%s), after DeallocateIf freed all, after DeallocateAll: filter never called", count, cached ? "cached free blocks flushed" : "one free buffer kept"), 4);
 	}
 
 	// ---- item 2a: MergeFrom(self)
@@ -1742,6 +1746,7 @@ struct Edge {
 			if (o.pool->mCachedCount > 0) c.stats.count("edge.merge.self.cached_blocks");
 		}
 		if (!broken) mergex(o, o, 0, "self");
+		if (!broken && severalBuffers) c.stats.sample("edge " + scen + ": MergeFrom(self) left {" + digest(*o.pool) + "} unchanged, then every block freed on its own", 2);
 		// every live block is still the pool's: each one is given back on its own
 		if (!broken) freeAll(o);
 		if (!broken) { fill(o, 2, 0); mergex(o, o, 0, "self, again"); }
@@ -1769,7 +1774,7 @@ struct Edge {
 		destroy(a2); destroy(b); destroy(a);
 		endScenario();
 		c.stats.nontrivial("edge " + scen);
-		if (C == 0) c.stats.sample("edge " + scen + ": std::invalid_argument in both directions, both pools unchanged and usable", 8);
+		if (C == 0) c.stats.sample("edge " + scen + ": std::invalid_argument in both directions, both pools unchanged and usable", 9);
 	}
 
 	// ---- item 3: pvCheckParams
@@ -1889,6 +1894,22 @@ struct Edge {
 			destroy(o2); destroy(o);
 		}
 		if (Mgr::alive != aliveBefore) c.fail("C09 manager: %ld memory manager objects are left over after the default-constructed pools", Mgr::alive - aliveBefore);
+		// MemPoolParams(blockSize) (73) and its getters (85-92): alignment = the largest power of two <= max(blockSize, 1), at most
+		// maxAlignment (16); block size rounded up to a multiple of it, at least twice the alignment (blockCount > 1) / at least 1 (blockCount 1)
+		for (size_t sz = 0; sz <= 130; ++sz) {
+			size_t al = 1;
+			while (al * 2 <= sz && al < momo::internal::UIntConst::maxAlignment) al *= 2;
+			momo::MemPoolParams<4, 2> pn(sz);
+			momo::MemPoolParams<1, 0> p1(sz);
+			const size_t wantN = (sz <= al) ? 2 * al : (sz + al - 1) / al * al, want1 = (sz > 0) ? sz : 1;
+			if (pn.GetBlockAlignment() != al || pn.GetBlockSize() != wantN || p1.GetBlockAlignment() != al || p1.GetBlockSize() != want1)
+				c.fail("C09 params: MemPoolParams(%zu) gives (size %zu, alignment %zu) for blockCount 4 and (size %zu, alignment %zu) for blockCount 1, expected (%zu, %zu) / (%zu, %zu)",
+					sz, pn.GetBlockSize(), pn.GetBlockAlignment(), p1.GetBlockSize(), p1.GetBlockAlignment(), wantN, al, want1, al);
+			int kind = 0;
+			paramsVerdict(pn.GetBlockSize(), pn.GetBlockAlignment(), 4, kind);
+			if (kind != 0) c.fail("C09 params: MemPoolParams(%zu) gives the illegal set (size %zu, alignment %zu, blockCount 4)", sz, pn.GetBlockSize(), pn.GetBlockAlignment());
+			c.stats.count("edge.params.default_alignment");
+		}
 		endScenario();
 		c.stats.count("edge.default_ctor");
 	}
